@@ -854,11 +854,43 @@ def template_ok(prog, s: NameSite):
         def _is_sub(r):
             return isinstance(r.value, ast.Call) and isinstance(r.value.func, ast.Attribute) and r.value.func.attr == "substitute"
         if any(_is_sub(r) for r in rets):
-            # one path still eliminates the template through substitute(); the other(s) are a shortcut whose freshness
-            # argument (a guard on the operands' variables, a different construction) the rule cannot follow
-            return None, "besides the path through substitute() the function has another return path that keeps the " \
-                         "template name; whether that path is guarded against a clash with the operands' names is not " \
-                         "something this rule can follow"
+            # one path still eliminates the template through substitute().  A shortcut path that does not carry the
+            # template name at all (an early exit for a degenerate operand) is no naming matter.  A shortcut that KEEPS
+            # the name in its result must have tested it against the variables of every operand.
+            tname = _assigned_name(fn, s.node)
+            operands = ["self"] + [a.arg for a in fn.args.args[1:] if a.arg in ("other", "other_cfg")]
+            for r in rets:
+                if _is_sub(r):
+                    continue
+                path = []
+                def _find(cur, guards):
+                    for fieldname in ("body", "orelse"):
+                        blk = getattr(cur, fieldname, None)
+                        if isinstance(blk, list):
+                            for st in blk:
+                                g2 = guards + ([cur.test] if isinstance(cur, ast.If) and fieldname == "body" else [])
+                                if st is r:
+                                    return g2, blk
+                                if any(x is r for x in ast.walk(st)):
+                                    return _find(st, g2)
+                    return None
+                found = _find(fn, [])
+                if found is None:
+                    return None, "a return path of the template function could not be located"
+                guards, blk = found
+                carries = tname is not None and any(isinstance(x, ast.Name) and x.id == tname for st in blk for x in ast.walk(st))
+                if not carries:
+                    continue
+                for root in operands:
+                    tested = any(isinstance(c, ast.Compare) and len(c.ops) == 1 and isinstance(c.ops[0], ast.NotIn) and
+                                 isinstance(c.left, ast.Name) and c.left.id == tname and
+                                 ast.unparse(c.comparators[0]).startswith(root + ".") and "variables" in ast.unparse(c.comparators[0])
+                                 for g in guards for c in ast.walk(g))
+                    if not tested:
+                        return False, "a return path keeps the template name `%s` in its result without passing through " \
+                                      "substitute() and without testing it against the variables of `%s`: an operand that " \
+                                      "already has a variable of that name is captured" % (s.sig, root)
+            return True, ""
         return False, "template function has several return paths"
     return False, "the template grammar is not eliminated through substitute() before returning"
 
